@@ -514,13 +514,58 @@ func ruleStoreWritesAssigned(c *Ctx, rule string) {
 				assigned = append(assigned, a.Common().Args[0])
 			}
 		}
+		// the result of a same-package builder counts when every object the builder returns went through assign() there
+		fromAssigningHelper := func(v ssa.Value) bool {
+			var call *ssa.Call
+			idx := 0
+			switch x := v.(type) {
+			case *ssa.Extract:
+				call, _ = x.Tuple.(*ssa.Call)
+				idx = x.Index
+			case *ssa.Call:
+				call = x
+			}
+			if call == nil {
+				return false
+			}
+			h := call.Call.StaticCallee()
+			if h == nil || len(h.Blocks) == 0 || h.Pkg != fn.Pkg {
+				return false
+			}
+			var inH []ssa.Value
+			for _, a := range callsLocal(h, fipPkg+".assign") {
+				inH = append(inH, a.Common().Args[0])
+			}
+			if len(inH) == 0 {
+				return false
+			}
+			for _, ret := range returns(h) {
+				if idx >= len(ret.Results) {
+					return false
+				}
+				r := ret.Results[idx]
+				if isNilConst(r) {
+					continue
+				}
+				ok := false
+				for _, a := range inH {
+					if a == r || sameAccess(a, r) {
+						ok = true
+					}
+				}
+				if !ok {
+					return false
+				}
+			}
+			return true
+		}
 		isAssigned := func(v ssa.Value) bool {
 			for _, a := range assigned {
 				if a == v || sameAccess(a, v) {
 					return true
 				}
 			}
-			return false
+			return fromAssigningHelper(v)
 		}
 		// sources of a value: through local cells (also captured ones) and phis
 		var sources func(v ssa.Value, seen map[ssa.Value]bool) []ssa.Value
